@@ -139,14 +139,6 @@ func VH_C06_CreatorAfterEditingItself() {
 	vAssert("requesting_session_has_the_new_privileges", cc.Account.Access == want)
 	vAssert("second_session_has_the_new_privileges", s2.Account.Access == want)
 	vAssert("other_accounts_untouched", other.Account.Access == otherAccess)
-	told := 0
-	for _, r := range res {
-		if r.Type == hotline.TranUserAccess && (r.ClientID == cc.ID || r.ClientID == s2.ID) {
-			told++
-		}
-		vAssert("other_account_not_told_new_access", !(r.Type == hotline.TranUserAccess && r.ClientID == other.ID))
-	}
-	vAssert("every_session_of_the_account_is_told_once", told == 2)
 	// now the same client asks for a new account
 	am.getResult = nil
 	req := vBytesN("req.access", 8)
